@@ -194,10 +194,9 @@ unique_ptr<DiscreteDistributionInterface> BppODiscreteDistributionFormat::readDi
         catch (Exception& e)
         {}
 
-      if (args.find("ParamOffset") != args.end())
-        rDist.reset(new GammaDiscreteDistribution(nbClasses, 1, 1, true, offset));
-      else
-        rDist.reset(new GammaDiscreteDistribution(nbClasses, 1, 1, false, offset));
+      // NB: the 4th and 5th arguments of the constructor are the minimum values of alpha and beta.
+      bool paramOffset = (args.find("ParamOffset") != args.end());
+      rDist.reset(new GammaDiscreteDistribution(nbClasses, 1, 1, 0.05, 0.05, paramOffset, offset));
 
       if (args.find("alpha") != args.end())
         unparsedArguments_["Gamma.alpha"] = args["alpha"];
